@@ -7,7 +7,12 @@ histories aimed at the packing boundaries.
 Oracle (implementation only): Packet.from_bytes(Packet.to_bytes(p)) == p with length/count
 describing the payload; every datagram handed to the socket is <= MTU-28 bytes, decodes
 independently, and the multiset of messages emitted equals the multiset queued; nothing raises;
-messages that fit together travel together."""
+messages that fit together travel together.
+Packet.setMTU on LIVE connections (connsim's optional event "setmtu", model unit conn_run_mtu): a connection
+created under one MTU keeps running while the MTU is lowered or raised, with messages queued and re-sends pending
+across the change; every datagram emitted after the change is measured against the NEW MTU-28, messages that fit
+together under the new MTU travel together, boundary lengths of the new MTU leave the queue, nothing raises and
+nothing queued is lost (one endpoint histories "live-mtu" and two-endpoint sessions)."""
 import struct, binascii, collections
 from harness import lib
 from harness import connsim as S
@@ -26,6 +31,10 @@ ASSUMPTIONS = [
     "sampled with the real AES-GCM / CRC-32 on every run)",
     "packet assembly is only reached through send()/disconnect()/the handshake replies, which never queue a message of "
     "type UNKNOWN (hypothesis no_unknown of pack_total / fit_together)",
+    "live setMTU histories: a message (or fragment) still queued or pending re-send when the MTU is LOWERED fits the new "
+    "MTU on its own (the generator only queues lengths <= min(old, new) MAX_PAYLOAD_SIZE before a change); a single "
+    "message longer than the new limit can neither be sent within the new MTU nor be re-fragmented by the code, it "
+    "stays queued — outside the property's quantifier, not exercised",
 ]
 TRUSTED = ["harness/packlib.py decode_datagram: independent struct/AESGCM/CRC decoding of the emitted datagrams"]
 
@@ -382,6 +391,10 @@ class Hist:
     def cfg(self, which, v):
         self.events.append(("cfg", which, v))
 
+    def setmtu(self, mtu):
+        """Packet.setMTU(mtu) while the connection exists"""
+        self.events.append(("setmtu", mtu))
+
 
 def fill(i, n):
     """n bytes, recognisable per message"""
@@ -506,6 +519,64 @@ def gen_histories(run):
         h.tick(len(h.sent) + 60)       # one message per tick at worst, plus the 1 s after which re-sends stop
         return h
 
+    def live_mtu(role, mtu0, mtu1, retry):
+        """the MTU is changed (both directions) while the connection exists and has messages queued"""
+        h = Hist(role, mtu0, "live-mtu")
+        h.complete = retry == 0
+        mp0, mp1 = cap(mtu0), cap(mtu1)
+        lo = min(mp0, mp1)
+        k = 0
+        # under the first MTU: some traffic, then a burst that is still (partly) queued when the MTU changes;
+        # every length fits both limits on its own
+        for n in (lo, 5, 0, lo - 1):
+            h.send(fill(k, n), retry); k += 1
+        h.tick(2)
+        for n in (lo // 2, lo // 2 - 7, lo // 2 + 3, 7, lo - 4, r.randrange(0, lo + 1), 11, 0):
+            h.send(fill(k, n), retry); k += 1
+        h.tick(r.choice([0, 1, 2]))
+        h.setmtu(mtu1)
+        h.tick(1)
+        for n in (r.randrange(0, lo + 1), 3, lo // 3, lo // 3):
+            h.send(fill(k, n), retry); k += 1
+        h.tick(14 if retry == 0 else 30)
+        guaranteed = retry != 0             # with a retry mode and a silent peer the re-sends compete with what is queued (and
+        if retry != 0:                      # guaranteed messages are re-queued at every time-out): the "exactly this group in one
+                                            # datagram" clause is judged in the retry-NONE histories only
+            h.tick(1, dt=T + 3000)          # everything un-acked has timed out: the re-send store is empty again
+            h.tick(2)
+            retry = 0
+        # under the new MTU, queue and re-send store empty: pairs / triples straddling the NEW capacity
+        for d in (-2, -1, 0, 1, 2):
+            a = r.randrange(0, mp1 - 12)
+            b = mp1 + 2 - 10 - a + d
+            i0 = len(h.sent)
+            h.send(fill(k, a), 0); h.send(fill(k + 1, b), 0); k += 2
+            h.tick(1)
+            if d <= 0 and not guaranteed:
+                h.groups.append((i0, 2, len(h.events) - 1))
+            h.tick(2)
+        for d in (-1, 0, 1):
+            a = r.randrange(0, (mp1 - 20) // 2)
+            b = r.randrange(0, (mp1 - 20) // 2)
+            c3 = mp1 + 2 - 15 - a - b + d
+            i0 = len(h.sent)
+            for n in (a, b, c3):
+                h.send(fill(k, n), 0); k += 1
+            h.tick(1)
+            if d <= 0 and not guaranteed:
+                h.groups.append((i0, 3, len(h.events) - 1))
+            h.tick(2)
+        # the single-message boundary of the NEW MTU (+1, +2 are fragmented under the new limits)
+        for n in (mp1 - 3, mp1 - 2, mp1 - 1, mp1, mp1 + 1, mp1 + 2):
+            h.send(fill(k, n), 0); k += 1
+        h.tick(12)
+        # and back: a second change on the same connection
+        h.setmtu(mtu0)
+        for n in (mp0, mp0 - 1, lo // 2, lo // 2, mp0 + 1):
+            h.send(fill(k, n), 0); k += 1
+        h.tick(10)
+        return h
+
     quick_mtus = [512, 513, 576, 1095, 1096, 1097, 1280, 1499, 1500] + [r.randrange(512, 1501) for _ in range(12)]
     mtus = list(range(512, 1501)) if run.thorough() else quick_mtus
     for mtu in mtus:
@@ -527,6 +598,11 @@ def gen_histories(run):
         hs.append(tiny("client", mtu, 0, min(255, per), 0))
     for _ in range(80 if run.thorough() else 20):
         hs.append(mixed(r.choice(["client", "server"]), r.choice(quick_mtus), r.choice([0, 0, 0, 1, -1])))
+    # Packet.setMTU on a live connection: lowered and raised, extremes and random pairs, all retry modes
+    changes = [(1500, 512), (512, 1500), (1500, 576), (576, 1500), (1500, 1096), (1095, 1500), (1500, 1499), (700, 701)]
+    changes += [tuple(r.sample(range(512, 1501), 2)) for _ in range(60 if run.thorough() else 8)]
+    for n, (m0, m1) in enumerate(changes):
+        hs.append(live_mtu(r.choice(["client", "server"]), m0, m1, [0, 0, 1, -1][n % 4]))
     return hs
 
 
@@ -557,7 +633,8 @@ def check_history(run, h):
     res = P.drive(run, h.role, h.events, key=7, mtu=h.mtu, every=len(h.events) < 120)
     case = {"role": h.role, "mtu": h.mtu, "kind": h.label, "events": P.short_events(h.events)[:40],
             "n_events": len(h.events)}
-    run.compare("conn_run", [case], [None if res["agree"] else res["diff"]], [None])
+    run.compare("conn_run_mtu" if any(e[0] == "setmtu" for e in h.events) else "conn_run",
+                [case], [None if res["agree"] else res["diff"]], [None])
     kb = res["keys"].bytes_of(7)
     mp = h.mtu - 66
     limit = h.mtu - 28
@@ -565,6 +642,11 @@ def check_history(run, h):
     nontrivial = False
     for n, (ev, raws, errs) in enumerate(zip(h.events, res["raws"], res["errs"])):
         run.evaluations += 1
+        if ev[0] == "setmtu":
+            # Packet.setMTU on the live connection: from here on the NEW limit is the one to respect
+            mp = ev[1] - 66
+            limit = ev[1] - 28
+            case = dict(case, mtu_now=ev[1], mtu_changed_at_event=n)
         if errs:
             what = "send-raised" if ev[0] == "send" else "packet-construction-raised"
             if not (ev[0] == "send" and len(ev[1]) > 1024 * 8192):
@@ -629,18 +711,39 @@ def check_history(run, h):
     return True
 
 
-def net_history(run, mtu, frames, seed_label):
+def net_history(run, mtu, frames, seed_label, mtu2=None):
     """two real endpoints on a loss-free simulated network (acks flow, so re-sends stop): sends in
     all retry modes from both sides; every datagram either side hands to the socket is measured and
-    decoded independently; the multiset of application payloads emitted must equal the multiset queued"""
+    decoded independently; the multiset of application payloads emitted must equal the multiset queued.
+    mtu2: Packet.setMTU(mtu2) is called in the middle of the session, on the live connections, right after a
+    burst (messages are queued and re-sends pending on both sides); lengths queued before the change fit both MTUs."""
     from harness import netsim as N
     r = run.rng
     mp = mtu - 66
     net = N.Net(run, r, {"tick": 300}, mtu=mtu)
     case = {"kind": "net", "mtu": mtu, "frames": frames, "label": seed_label}
     sends = []
+    change_at = None
+    mark = {"client": None, "server": None}
+    if mtu2 is not None:
+        change_at = frames // 3
+        mp = min(mtu, mtu2) - 66            # before the change: single messages that fit both limits
+        case["mtu_changed_to"] = mtu2
+        case["changed_at_frame"] = change_at
     try:
         for f in range(frames):
+            if f == change_at:
+                for _ in range(r.choice([40, 100])):
+                    who = r.choice(["client", "server"])
+                    n = r.choice([0, 1, 3, 30, mp // 3, mp // 2, mp - 1, mp])
+                    retry = r.choice([0, 0, 1, -1])
+                    net.send(who, n, retry, with_cb=r.random() < 0.3)
+                    sends.append((who, n, retry))
+                if r.random() < 0.5:
+                    net.step()
+                mark = {w: len(net.emitted[w]) for w in ("client", "server")}
+                net.setmtu(mtu2)
+                mp = mtu2 - 66
             if f < frames - 60:
                 burst = r.random() < 0.08
                 for _ in range(r.choice([30, 120, 300]) if burst else r.choice([0, 0, 0, 1, 1, 2])):
@@ -652,6 +755,8 @@ def net_history(run, mtu, frames, seed_label):
                         n = (0 if c < 0.2 else r.randrange(0, 8) if c < 0.4 else r.randrange(0, mp + 1) if c < 0.6
                              else mp - r.randrange(0, 4) if c < 0.8 else mp + r.randrange(1, 3) if c < 0.9
                              else r.randrange(mp // 2 - 8, mp // 2 + 8))
+                    if change_at is not None and f < change_at:
+                        n = min(n, mp)          # nothing fragmented under the old MTU is in flight at the change
                     retry = r.choice([0, 0, 1, -1])
                     mid = net.send(who, n, retry, with_cb=r.random() < 0.3)
                     sends.append((who, n, retry))
@@ -660,13 +765,13 @@ def net_history(run, mtu, frames, seed_label):
     finally:
         net.close()
     case["sends"] = [[w[0], n, rt] for w, n, rt in sends][:60]
-    run.compare("conn_run", [dict(case, endpoint="both")], [diffs[0] if diffs else None], [None])
-    limit = mtu - 28
+    run.compare("conn_run" if mtu2 is None else "conn_run_mtu", [dict(case, endpoint="both")], [diffs[0] if diffs else None], [None])
     ok = True
     for who in ("client", "server"):
         msgs = []
         for i, rec in enumerate(net.emitted[who]):
             run.evaluations += 1
+            limit = (mtu2 if (mark[who] is not None and i >= mark[who]) else mtu) - 28
             if len(rec["raw"]) > limit:
                 run.oracle_violation("datagram-exceeds-mtu", dict(case, endpoint=who, index=i, length=len(rec["raw"]), limit=limit),
                                      "_build_packet_impl")
@@ -717,6 +822,11 @@ def packing(run):
     for i in range(30 if run.thorough() else 6):
         mtu = run.rng.choice([512, 1500, 1096, run.rng.randrange(512, 1501)])
         if not net_history(run, mtu, 140, i):
+            break
+    # Packet.setMTU in the middle of a two-endpoint session (lowered / raised)
+    for i, (m0, m1) in enumerate([(1500, 512), (512, 1500), (1400, 600), (640, 1300)] +
+                                 [tuple(run.rng.sample(range(512, 1501), 2)) for _ in range(16 if run.thorough() else 0)]):
+        if not net_history(run, m0, 150, "live-mtu-%d" % i, mtu2=m1):
             break
 
 
